@@ -61,8 +61,8 @@ pub fn plans(ctx: &WorkerCtx) -> Vec<Plan> {
     let base = Opts { n32: 2, n64: 3, panic_is_violation: true, ..Default::default() };
     let t4: Vec<i64> = vec![0, 1, 1000, -2];
     let t2: Vec<i64> = vec![0, -2];
-    let g1 = fam::g1(if q { 59 } else { 2 });
-    let g2 = fam::g2(if q { 5999 } else { 299 }, 2);
+    let g1 = fam::g1(if q { 131 } else { 2 });
+    let g2 = fam::g2(if q { 11999 } else { 299 }, 2);
     let ctr: Vec<_> = fam::p_ctr().into_iter().filter(|(n, _)| n.contains("load3") || n.contains("load4")).step_by(if q { 3 } else { 1 }).collect();
     let mut v = vec![];
     v.push(Plan { name: "no machines".into(), cfgs: vec![Cfg::new("[] fw(1,1)", vec![], 1.0, 1.0), Cfg::new("[] fw(0,0)", vec![], 0.0, 0.0)], alpha_for: af(true, t4.clone()), opts: Opts { depth: 2, ..base.clone() }, walk: None });
@@ -86,7 +86,7 @@ pub fn plans(ctx: &WorkerCtx) -> Vec<Plan> {
             .filter(|c| !fam::uses_binomial(std::slice::from_ref(&c.m)))
             .map(|c| (format!("literal[{}]", c.label), c.m))
             .collect();
-        let sub: Vec<_> = accepted.into_iter().step_by(if q { 3 } else { 1 }).collect();
+        let sub: Vec<_> = accepted.into_iter().step_by(if q { 7 } else { 1 }).collect();
         v.push(Plan { name: "machine literals with adversarial numbers / targets that the current validation accepts".into(), cfgs: fam::singles(&sub, &fr4[..1]), alpha_for: af(false, vec![0, 1]), opts: Opts { depth: 2, n32: 2, n64: 4, full_positions: 3, max_deviations: 1, ..base.clone() }, walk: None });
     }
     // distributions whose start / max relate badly (start > max > 0, NaN, infinities): validation does not relate them
@@ -113,8 +113,58 @@ pub fn plans(ctx: &WorkerCtx) -> Vec<Plan> {
 
 pub const RULE: &str = "every call on the real Framework (overflow checks on) from every explored state: all single events with own, foreign and usize::MAX machine ids, empty and long batches, time steps incl. 0, backwards and 2^40 us, every RNG script; a panic, abort, hang or a step count above 4*(events+1)*(machines+1) is a violation. distinct_nontrivial = distinct states first reached by a call in which some machine performed an internal step (LimitReached / CounterZero / Signal) beyond one step per event and machine";
 
+/// Extreme `std::time::Instant` values (the explorer's virtual clock stays far from any overflow): instants
+/// 2^k seconds apart with the clock stepping backwards between BlockingBegin / BlockingEnd rounds.
+/// Returns (calls executed, failures as (signature, message, scenario)).
+pub fn extreme_instants() -> (u64, Vec<(String, String, Value)>) {
+    use maybenot::event::TriggerEvent as T;
+    use std::time::{Duration, Instant};
+    let mut calls = 0u64;
+    let mut fails = vec![];
+    let machines = vec![fam::blocker(0, false, 0, 0.5), fam::blocker(1, true, 1000, 0.25), fam::noop()];
+    for exp in [20u32, 40, 55, 61, 62] {
+        for rounds in [1usize, 2, 3, 4, 6] {
+            for with_machine in [0usize, 1, 2] {
+                let t0 = Instant::now();
+                let Some(t1) = t0.checked_add(Duration::from_secs(1u64 << exp)) else { continue };
+                let ms = vec![machines[with_machine].clone()];
+                let r = std::panic::catch_unwind(std::panic::AssertUnwindSafe(|| {
+                    let mut f = maybenot::Framework::new(ms, 0.5, 0.5, t0, crate::rng::WordRng::new(&[], 3)).expect("framework");
+                    let mut n = 0u64;
+                    for _ in 0..rounds {
+                        for (e, t) in [(T::BlockingBegin { machine: mid(0) }, t0), (T::NormalRecv, t1), (T::BlockingEnd, t1), (T::NormalRecv, t0)] {
+                            let _ = f.trigger_events(&[e], t).count();
+                            n += 1;
+                        }
+                    }
+                    n
+                }));
+                match r {
+                    Ok(n) => calls += n,
+                    Err(_) => {
+                        let msg = crate::explore::last_panic();
+                        let sig = if msg.contains("overflow when adding durations") { "C01:extreme-instants:blocked-time-accumulation-overflow".to_string() } else { format!("C01:extreme-instants:{}", first_line(&msg).chars().take(60).collect::<String>()) };
+                        fails.push((sig, format!("{rounds} rounds of BlockingBegin at t0 / BlockingEnd at t0 + 2^{exp} s with the clock stepping back in between: {}", first_line(&msg)), json!({"property": "C01", "engine": "E1-extreme-instants", "span_seconds_log2": exp, "rounds": rounds, "machine": with_machine, "message": msg})));
+                    }
+                }
+            }
+        }
+    }
+    (calls, fails)
+}
+
 pub fn worker(ctx: &WorkerCtx) -> WorkerOut {
-    let s = run_e1::<Obs>("C01", plans(ctx), ctx, RULE);
+    let mut s = run_e1::<Obs>("C01", plans(ctx), ctx, RULE);
+    if ctx.only_unit.is_none() {
+        let (n, fails) = extreme_instants();
+        s.coverage["extreme_std_instant_calls"] = json!(n);
+        let mut seen = std::collections::HashSet::new();
+        for (sig, msg, replay) in fails {
+            if seen.insert(sig.clone()) {
+                s.reported.push(Rep { signature: sig, summary: msg, replay });
+            }
+        }
+    }
     let vacuous = if s.nontrivial_states < 1000 && ctx.only_unit.is_none() && s.reported.is_empty() { Some(format!("only {} non-trivial states", s.nontrivial_states)) } else { None };
     WorkerOut {
         level: "model_checking",
